@@ -70,7 +70,49 @@ def gen(rng, tier):
         ln = rng.randrange(0, 5)
         elems = [rand_index(rng, True if c == "ed25519" else None) for _ in range(ln)]
         yield Case("derivepathstr", [c, hx(seed), tx(spell(rng, elems, rng.random() < 0.7))], "derive-str")
+    yield from gen_marker_structure(rng, tier)
     yield from gen_nodes(rng, tier)
+
+
+def gen_marker_structure(rng, tier):
+    """"a decimal number with AT MOST ONE hardened marker": the whole structure space around the marker, not a list of examples.
+    Every ordered sequence of two and of three markers (3^2 + 3^3, so every order in which a parser could meet them), random longer ones,
+    markers separated from each other or from the number by blanks, markers before or inside the number, upper-case look-alikes — each after
+    several numbers (0, small, 2^31-1, above 2^31), as the only element, the first, an inner and the last one of a relative and of an absolute
+    path, with and without blanks around the element.  The model decides (all but the single-marker controls are path errors); the same
+    strings are also given to DerivePath on real keys of three curves, so that an accepted element shows as a derived key."""
+    import itertools
+    seqs = [t for k in (2, 3) for t in itertools.product(MARKERS, repeat=k)]
+    seqs += [tuple(rng.choice(MARKERS) for _ in range(rng.randrange(4, 7))) for _ in range(6 if tier == "quick" else 60)]
+    nums = ["0", "44", "2147483647", "1", "7", "2147483648", "00"]
+
+    def contexts(elem):
+        a, b = str(rand_index(rng, False)), str(rand_index(rng, False)) + rng.choice(["", "'", "h", "p"])
+        return [elem, "m/" + elem, "m/%s/%s/%s" % (a, elem, b), "%s/%s" % (elem, b), "m/%s/%s" % (b, elem), " %s /%s" % (elem, a), "m/%s/ %s" % (a, elem)]
+
+    nder = 0
+    for si, seq in enumerate(seqs):
+        for num in (nums if tier == "thorough" else [nums[si % 3], rng.choice(nums)]):
+            elem = num + "".join(seq)
+            ctx = contexts(elem)
+            for s in (ctx if tier == "thorough" else [ctx[0], ctx[1], rng.choice(ctx[2:]), rng.choice(ctx[2:])]):
+                yield Case("parsepath", [tx(s)], "neg-marker-structure")
+            c = ("secp256k1", "nist256p1", "ed25519")[nder % 3]
+            nder += 1
+            yield Case("derivepathstr", [c, hx(rand_seed(rng)), tx(rng.choice(ctx[:3]))], "neg-marker-structure-derive")
+    # the same marker material in other places of the element
+    for i in range(60 if tier == "quick" else 2000):
+        num = rng.choice(nums)
+        m1, m2 = rng.choice(MARKERS), rng.choice(MARKERS)
+        sp = rng.choice(SPACES)
+        elem = rng.choice([num + m1 + sp + m2, num + sp + m1, num + sp + m1 + m2, m1 + num, m1 + num + m2, num[:1] + m1 + num[1:] + "5", num + m1.upper() + m2,
+                           num + m1 + m2.upper(), m1 + m2, m1 + sp + num, num + m1 + num + m2, num + m1 + "/" + m2, num + m1 + sp])
+        for s in rng.sample(contexts(elem), 2):
+            yield Case("parsepath", [tx(s)], "neg-marker-structure")
+    for num in nums[:4]:          # controls: exactly one marker is the hardened index, in every context
+        for m1 in MARKERS:
+            for s in contexts(num + m1)[:4]:
+                yield Case("parsepath", [tx(s)], "parse-spelling")
 
 
 def gen_nodes(rng, tier):
